@@ -207,6 +207,25 @@ pub fn measure(kind: Kind, pattern: Pattern, n: usize, seed: u64) -> Measured {
     next_id += half as u32;
     let (t, _) = timed(|| q.append(&mut other));
     m.bulk_ops.insert("append", (t, len + half));
+    // lopsided appends: a tiny queue receiving a big one, and the reverse
+    for tiny in [0usize, 1, 3, 7] {
+        let big_n = n;
+        let bv: Vec<(Key, Prio)> = (0..big_n).map(|i| (Key::new(next_id + i as u32, 0), Prio::new(prio_of(pattern, i, big_n.max(1), &mut r)))).collect();
+        next_id += big_n as u32;
+        let mut big = AnyQ::from_vec(kind, bv);
+        let tv: Vec<(Key, Prio)> = (0..tiny).map(|i| (Key::new(next_id + i as u32, 0), Prio::new(r.range(-1000, 1000) as i32))).collect();
+        next_id += tiny as u32;
+        let mut small = AnyQ::from_vec(kind, tv);
+        if tiny % 2 == 0 || tiny == 7 {
+            let (t, _) = timed(|| small.append(&mut big));
+            let e = m.bulk_ops.entry("append_big_into_tiny").or_insert((0, big_n + tiny));
+            e.0 = e.0.max(t);
+        } else {
+            let (t, _) = timed(|| big.append(&mut small));
+            let e = m.bulk_ops.entry("append_tiny_into_big").or_insert((0, big_n + tiny));
+            e.0 = e.0.max(t);
+        }
+    }
     // extend by as many pairs as it holds (rebuild strategy) with an exact hint
     let len = q.len();
     let pairs: Vec<(Key, Prio)> = (0..len).map(|i| (Key::new(next_id + i as u32, 0), Prio::new(prio_of(pattern, i, len.max(1), &mut r)))).collect();
